@@ -35,7 +35,7 @@ N_PROGRAMS = {"quick": 3000, "thorough": 120000}
 N_TWINS = {"quick": 250, "thorough": 6000}
 # generated-source mode (declared functions: distinct constructor IDs, runtime names): batches x programs
 M2_PROPS = {"C01", "C13", "C14", "C18", "C19", "C20"}
-N_M2 = {"quick": (1, 200), "thorough": (8, 300)}
+N_M2 = {"quick": (1, 300), "thorough": (10, 400)}
 
 
 class M2Pair:
